@@ -86,6 +86,7 @@ vp_str_eq(info.url.scheme(), "https")
             res matches Ok(s) ==> ({ let cu = connect_url(info.url, opt_url(info.proxy)); // id: tcp_peer_is_proxy_else_url_host_and_effective_port [C08]
                 url_host(&cu) is Some && url_effective_port(&cu) is Some && tcp_peer(&s) == (url_host(&cu).unwrap(), url_effective_port(&cu).unwrap()) }),
             res matches Ok(s) ==> tunnelled(&s) == (info.proxy is Some && url_scheme_is(info.url, "https")), // id: tunnel_iff_https_via_proxy [C12,C08]
+            res is Ok ==> ({ let cu = connect_url(info.url, opt_url(info.proxy)); url_scheme_is(&cu, "http") || url_scheme_is(&cu, "https") }), // id: only_http_and_https_urls_are_dialled [C09,C08]
 //@@ end
 
 //@@ ifdef streams_real
